@@ -124,8 +124,8 @@ Local Open Scope string_scope.
    114  archive_read_support_format_warc.c:145  [archive_read_support_format_warc]  ARCHIVE_STATE_NEW
    115  archive_read_support_format_xar.c:74  [archive_read_support_format_xar]  ARCHIVE_STATE_NEW
    116  archive_read_support_format_xar.c:450  [archive_read_support_format_xar]  ARCHIVE_STATE_NEW
-   117  archive_read_support_format_zip.c:3605  [archive_read_support_format_zip]  ARCHIVE_STATE_NEW
-   118  archive_read_support_format_zip.c:4397  [archive_read_support_format_zip_seekable]  ARCHIVE_STATE_NEW
+   117  archive_read_support_format_zip.c:3621  [archive_read_support_format_zip]  ARCHIVE_STATE_NEW
+   118  archive_read_support_format_zip.c:4413  [archive_read_support_format_zip_seekable]  ARCHIVE_STATE_NEW
    119  archive_write.c:133  [archive_write_set_bytes_per_block]  ARCHIVE_STATE_NEW
    120  archive_write.c:151  [archive_write_get_bytes_per_block]  ARCHIVE_STATE_ANY
    121  archive_write.c:168  [archive_write_set_bytes_in_last_block]  ARCHIVE_STATE_ANY
@@ -153,16 +153,16 @@ Local Open Scope string_scope.
    143  archive_write_add_filter_zstd.c:120  [archive_write_add_filter_zstd]  ARCHIVE_STATE_NEW
    144  archive_write_disk_posix.c:572  [archive_write_disk_set_options]  ARCHIVE_STATE_ANY
    145  archive_write_disk_posix.c:598  [archive_write_disk_header]  ARCHIVE_STATE_HEADER | ARCHIVE_STATE_DATA
-   146  archive_write_disk_posix.c:969  [archive_write_disk_set_skip_file]  ARCHIVE_STATE_ANY
-   147  archive_write_disk_posix.c:1684  [archive_write_data_block]  ARCHIVE_STATE_DATA
-   148  archive_write_disk_posix.c:1712  [archive_write_data]  ARCHIVE_STATE_DATA
-   149  archive_write_disk_posix.c:1726  [archive_write_finish_entry]  ARCHIVE_STATE_HEADER | ARCHIVE_STATE_DATA
-   150  archive_write_disk_posix.c:1979  [archive_write_disk_set_group_lookup]  ARCHIVE_STATE_ANY
-   151  archive_write_disk_posix.c:1998  [archive_write_disk_set_user_lookup]  ARCHIVE_STATE_ANY
-   152  archive_write_disk_posix.c:2014  [archive_write_disk_gid]  ARCHIVE_STATE_ANY
-   153  archive_write_disk_posix.c:2025  [archive_write_disk_uid]  ARCHIVE_STATE_ANY
-   154  archive_write_disk_posix.c:2578  [archive_write_disk_close]  ARCHIVE_STATE_HEADER | ARCHIVE_STATE_DATA
-   155  archive_write_disk_posix.c:2727  [archive_write_disk_free]  ARCHIVE_STATE_ANY | ARCHIVE_STATE_FATAL
+   146  archive_write_disk_posix.c:981  [archive_write_disk_set_skip_file]  ARCHIVE_STATE_ANY
+   147  archive_write_disk_posix.c:1696  [archive_write_data_block]  ARCHIVE_STATE_DATA
+   148  archive_write_disk_posix.c:1724  [archive_write_data]  ARCHIVE_STATE_DATA
+   149  archive_write_disk_posix.c:1738  [archive_write_finish_entry]  ARCHIVE_STATE_HEADER | ARCHIVE_STATE_DATA
+   150  archive_write_disk_posix.c:1991  [archive_write_disk_set_group_lookup]  ARCHIVE_STATE_ANY
+   151  archive_write_disk_posix.c:2010  [archive_write_disk_set_user_lookup]  ARCHIVE_STATE_ANY
+   152  archive_write_disk_posix.c:2026  [archive_write_disk_gid]  ARCHIVE_STATE_ANY
+   153  archive_write_disk_posix.c:2037  [archive_write_disk_uid]  ARCHIVE_STATE_ANY
+   154  archive_write_disk_posix.c:2590  [archive_write_disk_close]  ARCHIVE_STATE_HEADER | ARCHIVE_STATE_DATA
+   155  archive_write_disk_posix.c:2739  [archive_write_disk_free]  ARCHIVE_STATE_ANY | ARCHIVE_STATE_FATAL
    156  archive_write_disk_windows.c:842  [archive_write_disk_header]  ARCHIVE_STATE_HEADER | ARCHIVE_STATE_DATA
    157  archive_write_disk_windows.c:1069  [archive_write_disk_set_skip_file]  ARCHIVE_STATE_ANY
    158  archive_write_disk_windows.c:1165  [archive_write_data_block]  ARCHIVE_STATE_DATA
